@@ -6,6 +6,7 @@ import AcraModel.Wire.PgBind
 import AcraModel.Wire.MysqlColDef
 import AcraModel.Wire.MysqlExecute
 import AcraModel.Wire.PgDescribe
+import AcraModel.Typed.Row
 /-! Driver ops for C12 (wire formats). -/
 namespace Driver.C12
 open AcraModel AcraModel.Wire
@@ -182,6 +183,13 @@ def handle2 (op : String) (args : List String) : Option String :=
         | none => "none")
   | _, _ => none
 
+/-- which parameters carry a type-aware setting: `_` none, `all`, `m<k>` every k-th, or a comma list of indices -/
+def parseSel (s : String) : Option (Nat → Bool) :=
+  if s = "_" then some fun _ => false
+  else if s = "all" then some fun _ => true
+  else if s.startsWith "m" then (String.ofList (s.toList.drop 1)).toNat?.map fun k => fun i => k > 0 && i % k == 0
+  else ((s.splitOn ",").mapM String.toNat?).map fun (l : List Nat) => fun i => l.contains i
+
 def handle (op : String) (args : List String) : Option String :=
   match handle2 op args with
   | some r => some r
@@ -294,6 +302,22 @@ def handle (op : String) (args : List String) : Option String :=
       let types ← parseNats types
       let b ← ofHex b
       pure (match My.decodeBinRow types b with | some r => "some " ++ showRow r | none => "none")
+  -- rows through the real decoder → encoder subscribers without any column setting
+  | "pg.chain", [fmts, s] => do
+      let fmts ← parseNats fmts
+      let s ← ofHex s
+      let r : Out Bytes := do
+        let (p, _) ← Pg.readDb s
+        let p' ← Pg.rewriteRow (fun _ d => Typed.pgChainNoSetting false d) fmts p
+        pure (Pg.marshal p')
+      pure (r.render hexOf)
+  | "my.chain", [proto, types, row] => do
+      let types ← parseNats types
+      let row ← ofHex row
+      if proto = "text" then
+        pure ((My.textRow (fun i v => Typed.myChainNoSetting false (types[i]?.getD 0) v) types.length row).render hexOf)
+      else
+        pure ((My.binRow (fun i v => Typed.myChainNoSetting true (types[i]?.getD 0) v) types row).render hexOf)
   -- PostgreSQL Parse
   | "pg.parse.fields", [b] => do
       let b ← ofHex b
@@ -305,6 +329,16 @@ def handle (op : String) (args : List String) : Option String :=
       let r : Out Bytes := do
         let (p, _) ← Pg.readClient true s
         let p' ← Pg.replaceParseQuery p q
+        pure (Pg.marshal p')
+      pure (r.render hexOf)
+  -- Parse through `handleClientPacket`: query replaced (or `none`), parameters selected by the rule re-typed to bytea
+  | "pg.parse", [q, sel, s] => do
+      let q ← (if q = "none" then some none else (ofHex q).map some)
+      let sel ← parseSel sel
+      let s ← ofHex s
+      let r : Out Bytes := do
+        let (p, _) ← Pg.readClient true s
+        let p' ← Pg.handleParse p q sel 17
         pure (Pg.marshal p')
       pure (r.render hexOf)
   | "pg.parse.enc", [name, query, oids] => do
